@@ -9,7 +9,7 @@
    backwards) is a hypothesis only of the statements that speak about the order
    of instants. *)
 From Coq Require Import List ZArith Bool Lia.
-From Verif Require Import C20.Model C20.Proofs.
+From Verif Require Import C20.Model C20.Proofs C20.Outcome C20.OutcomeProofs.
 Import ListNotations.
 Open Scope Z_scope.
 
@@ -128,6 +128,110 @@ Proof.
 Qed.
 Print Assumptions C20_flap_never_fires_pairs.
 
+(* ---- the outcome of a reaction is an input of the check (Outcome.v): the
+   reactions of diagnosis_failsafe.go can fail (persisted policies unreadable,
+   HAProxy refusing).  The statements above hold for the reactions as INVOKED,
+   whatever their outcomes ---- *)
+
+(* the loop does not look at the outcome: two scripts that differ only in the
+   faults give the same trace *)
+Theorem C20_outcome_irrelevant : forall c t0 script script',
+  map f_item script = map f_item script' ->
+  run_o Latch c init t0 script = run_o Latch c init t0 script'.
+Proof. intros c t0 script script' H. rewrite !run_o_latch, H. reflexivity. Qed.
+Print Assumptions C20_outcome_irrelevant.
+
+Theorem C20_alternate_any_outcome : forall c t0 script,
+  alternates_from true (map fst (reactions (run_o Latch c init t0 script))).
+Proof. intros. rewrite run_o_latch. apply C20_alternate. Qed.
+Print Assumptions C20_alternate_any_outcome.
+
+Theorem C20_stable_before_fire_any_outcome : forall c t0 script pre e post,
+  run_o Latch c init t0 script = pre ++ e :: post -> e_fire e = true ->
+  exists pre1 r f,
+    pre = pre1 ++ f :: r /\
+    Forall (fun x => e_obs x = e_obs e) (f :: r) /\
+    Z.max (cN c) 2 <= Z.of_nat (length (f :: r)) + 1 /\
+    cP c <= e_at e - e_at f.
+Proof. intros c t0 script. rewrite run_o_latch. apply C20_stable_before_fire. Qed.
+Print Assumptions C20_stable_before_fire_any_outcome.
+
+Theorem C20_cooldown_silent_any_outcome : forall c t0 script pre e post,
+  Forall (fun o => item_ok (f_item o)) script ->
+  run_o Latch c init t0 script = pre ++ e :: post ->
+  e_fire e = true -> e_obs e = false ->
+  Forall (fun e' => e_at e + Z.max (cC c) 0 <= e_at e') post.
+Proof.
+  intros c t0 script pre e post Hok. rewrite run_o_latch.
+  apply C20_cooldown_silent. apply Forall_map. exact Hok.
+Qed.
+Print Assumptions C20_cooldown_silent_any_outcome.
+
+(* what suite failsafe observes are the reactions of the trace, the failed ones
+   included, each at its instant ... *)
+Theorem C20_invoked_reactions_observed : forall c t0 script df,
+  map (fun r => (r_kind r, r_at r + t0))
+      (effects df t0 (run_o Latch c init t0 script) script)
+  = reactions (run_o Latch c init t0 script).
+Proof. intros. apply effects_reactions. apply run_o_length. Qed.
+Print Assumptions C20_invoked_reactions_observed.
+
+(* ... and a failed reaction leaves the policies in force as they were, a
+   successful one installs the diagnosis-free policies ('unhealthy') or the
+   last loaded ones ('healthy again') *)
+Theorem C20_failed_reaction_changes_nothing : forall c t0 script df pre r post,
+  effects df t0 (run_o Latch c init t0 script) script = pre ++ r :: post ->
+  r_diagfree r = if r_effect r then negb (r_kind r) else in_force df pre.
+Proof. intros c t0 script df pre r post H. exact (effects_in_force t0 _ _ df pre r post H). Qed.
+Print Assumptions C20_failed_reaction_changes_nothing.
+
+(* the variant that re-arms the watcher when a reaction failed does not
+   alternate: the same reaction is invoked again and again *)
+Definition C20_alternate_rearm_full : Prop := forall c t0 script,
+  alternates_from true (map fst (reactions (run_o Rearm c init t0 script))).
+Theorem C20_alternate_rearm_full_refuted : ~ C20_alternate_rearm_full.
+Proof.
+  intros H. specialize (H rearm_cfg 0 rearm_script). rewrite rearm_witness in H.
+  cbn in H. destruct H as (_ & H & _). discriminate H.
+Qed.
+Print Assumptions C20_alternate_rearm_full_refuted.
+
+(* with reactions that succeed the variant is the code: the difference needs a fault *)
+Theorem C20_rearm_needs_a_failure : forall c t0 script,
+  Forall (fun o => f_fault o = NoFault) script ->
+  run_o Rearm c init t0 script = run_o Latch c init t0 script.
+Proof. intros c t0 script F. exact (rearm_latch_without_fault c script init t0 F). Qed.
+Print Assumptions C20_rearm_needs_a_failure.
+
+(* ---- a predicate that hangs (Outcome.v): the loop waits for the answer,
+   however long it takes, so every iteration is an observation; a reaction is
+   backed by max(N,2) consecutive ANSWERS of the new state ---- *)
+
+Theorem C20_wait_is_run : forall c t0 script,
+  run_h Wait c init t0 script = map (fun e => (e, true)) (run c init t0 script).
+Proof. intros. apply run_h_wait. Qed.
+Print Assumptions C20_wait_is_run.
+
+Theorem C20_fires_confirmed_by_answers : forall c t0 script,
+  fires_confirmed c (run_h Wait c init t0 script).
+Proof. intros. apply wait_fires_confirmed. Qed.
+Print Assumptions C20_fires_confirmed_by_answers.
+
+(* the variant that bounds the evaluation and goes on with the previous reading
+   turns ONE answer followed by checks that hang into a reaction *)
+Definition C20_fires_confirmed_carry_over_full : Prop := forall lim c t0 script,
+  fires_confirmed c (run_h (CarryOver lim) c init t0 script).
+Theorem C20_fires_confirmed_carry_over_full_refuted : ~ C20_fires_confirmed_carry_over_full.
+Proof. intros H. exact (carry_not_confirmed (H 5 carry_cfg 0 carry_script)). Qed.
+Print Assumptions C20_fires_confirmed_carry_over_full_refuted.
+
+(* as long as every answer comes within the bound the variant is the code *)
+Theorem C20_carry_over_needs_a_hang : forall lim c t0 script,
+  Forall (fun o => i_d o <= lim) script ->
+  run_h (CarryOver lim) c init t0 script = run_h Wait c init t0 script.
+Proof. intros lim c t0 script F. exact (carry_over_wait_without_hang lim c script init t0 F). Qed.
+Print Assumptions C20_carry_over_needs_a_hang.
+
 (* ---- non-vacuity ---- *)
 
 (* a concrete script on which both reactions fire *)
@@ -163,4 +267,15 @@ Proof. vm_compute. reflexivity. Qed.
 Example C20_brief_example :
   reactions (run_pairs {| cN := 2; cP := 10; cI := 1; cC := 0 |} init 0
                [(false,0); (false,0); (false,0); (false,0); (false,0); (true,0)]) = [].
+Proof. vm_compute. reflexivity. Qed.
+
+(* a hang of an hour only delays, and a failing reaction leaves the policies as
+   they were: outage (diagnosis dropped), recovery after a check that hung, its
+   reaction fails (HAProxy refuses): the diagnosis-free policies stay in force *)
+Example C20_fires_with_failure_and_hang :
+  let script := [FIt (It false 0 0 0) NoFault; FIt (It false 0 0 0) NoFault;
+                 FIt (It false 0 0 0) NoFault; FIt (It true 0 3600 0) NoFault;
+                 FIt (It true 0 0 0) ProxyRefuses; FIt (It true 0 0 0) NoFault] in
+  effects false 100 (run_o Latch {| cN := 2; cP := 1; cI := 1; cC := 7 |} init 100 script) script
+  = [FRx false 1 true true; FRx true 3611 false true].
 Proof. vm_compute. reflexivity. Qed.
